@@ -25,3 +25,47 @@ Definition element_positions : list (str * str) :=
    (s_ "dependencies", s_ "dependencies.*");
    (s_ "elements", s_ "elements");     (* CompositionElement( *elements ) *)
    (s_ "element", s_ "element")].      (* Not(element), _Property(element) *)
+
+(* ---- constructor signatures (keyword parameters each element class accepts) ---- *)
+From Statham.Model Require Import Json Elem.
+
+Definition sig_element : list str :=
+  map s_ ["default"; "const"; "enum"; "items"; "additionalItems"; "minItems"; "maxItems";
+          "uniqueItems"; "contains"; "minimum"; "maximum"; "exclusiveMinimum";
+          "exclusiveMaximum"; "multipleOf"; "format"; "pattern"; "minLength"; "maxLength";
+          "required"; "properties"; "patternProperties"; "additionalProperties";
+          "minProperties"; "maxProperties"; "propertyNames"; "dependencies"; "description"].
+Definition sig_string : list str :=
+  map s_ ["default"; "const"; "enum"; "format"; "pattern"; "minLength"; "maxLength"; "description"].
+Definition sig_numeric : list str :=
+  map s_ ["default"; "const"; "enum"; "minimum"; "maximum"; "exclusiveMinimum";
+          "exclusiveMaximum"; "multipleOf"; "description"].
+Definition sig_literal : list str := map s_ ["default"; "const"; "enum"; "description"].
+Definition sig_array : list str :=
+  map s_ ["items"; "default"; "const"; "enum"; "additionalItems"; "minItems"; "maxItems";
+          "uniqueItems"; "contains"; "description"].
+(* ObjectMeta.__new__ keyword-only parameters *)
+Definition sig_object : list str :=
+  map s_ ["default"; "const"; "enum"; "required"; "minProperties"; "maxProperties";
+          "patternProperties"; "additionalProperties"; "propertyNames"; "dependencies";
+          "description"].
+
+Definition signature_of (c : ecls) : list str :=
+  match c with
+  | CElement => sig_element
+  | CString => sig_string
+  | CInteger | CNumber => sig_numeric
+  | CBoolean | CNull => sig_literal
+  | CArray => sig_array
+  end.
+
+(* parser._TYPE_MAPPING (object and array are dispatched before the lookup) *)
+Definition type_mapping : list (str * ecls) :=
+  [(s_ "array", CArray); (s_ "boolean", CBoolean); (s_ "integer", CInteger);
+   (s_ "null", CNull); (s_ "number", CNumber); (s_ "string", CString)].
+
+Definition composition_keywords : list str := map s_ ["anyOf"; "oneOf"; "allOf"; "not"].
+Definition unsupported_keywords : list str :=
+  map s_ ["$defs"; "if"; "then"; "else"; "unevaluatedItems"; "unevaluatedProperties"].
+(* the keys parse_element cleans with _parse_literal *)
+Definition literal_keys : list str := map s_ ["default"; "const"; "enum"].
